@@ -26,6 +26,13 @@ def gen_value(rng, kind, name, depth):
     return ("obj", gen_obj(rng, depth - 1))
 
 
+def respell(rng, name):
+    """Keys compare case-insensitively: now and then a file spells one differently than the previous file / the registration did."""
+    if rng.random() < 0.12:
+        return rng.choice([name.upper(), name.capitalize()])
+    return name
+
+
 def gen_obj(rng, depth):
     ents = []
     for k in KIDS:
@@ -35,7 +42,7 @@ def gen_obj(rng, depth):
                 kind = rng.choice(["str", "list", "inaddr"])   # retype
             if kind == "obj" and depth <= 0:
                 continue
-            ents.append((k, gen_value(rng, kind, k, depth)))
+            ents.append((respell(rng, k), gen_value(rng, kind, k, depth)))
     return ents
 
 
@@ -43,7 +50,7 @@ def gen_file(rng):
     tree = []
     for t in TOPS:
         if rng.random() < 0.7:
-            tree.append((t, ("obj", gen_obj(rng, 2))))
+            tree.append((respell(rng, t), ("obj", gen_obj(rng, 2))))
     if rng.random() < 0.3:
         tree.append((b"loose", gen_value(rng, rng.choice(["str", "list"]), b"loose", 0)))
     return tree
@@ -169,7 +176,7 @@ def _worker(a):
             # a file that does not parse, loaded between the good ones in some histories: it must change nothing, also not later
             rngb = random.Random("c15b/%d/%d" % (seed, i))
             bad_at = rngb.randrange(n) if (n >= 2 and rngb.random() < 0.3) else None
-            badp = b.add_file(texts[rngb.randrange(n)] + b'\nzz_bad { "\n') if bad_at is not None else None
+            badp = b.add_file(texts[rngb.randrange(n)] + rngb.choice([b'\nzz_bad { "\n', b'\nzz_bad ( q1 q2 )\n', b'\nzz_bad { l ( q1, q2\n', b'\nzz_bad h1 s1 extra\n'])) if bad_at is not None else None
             cmds = []
             for li in range(n):
                 cmds += [r[0] for r, p in zip(regs, points) if p == li]
